@@ -762,6 +762,24 @@ pub fn finish(env: &Env, rep: Report) -> i32 {
     0
 }
 
+/// Crash attribution: when VERIF_INFLIGHT=<dir> is set, every case is written to
+/// <dir>/<thread>.json before it is executed, so that a process killed by a signal
+/// (abort, stack overflow, OOM) leaves the in-flight cases behind.
+pub fn inflight(case: &J) {
+    thread_local! {
+        static DIR: Option<String> = std::env::var("VERIF_INFLIGHT").ok();
+    }
+    DIR.with(|d| {
+        if let Some(d) = d {
+            let id = format!("{:?}", std::thread::current().id())
+                .chars()
+                .filter(|c| c.is_ascii_digit())
+                .collect::<String>();
+            let _ = std::fs::write(format!("{d}/{id}.json"), case.to_string());
+        }
+    });
+}
+
 /// Load the `case` member of a replay file.
 pub fn load_replay_case(p: &std::path::Path) -> Result<(String, J), String> {
     let s = std::fs::read_to_string(p).map_err(|e| e.to_string())?;
